@@ -91,6 +91,7 @@ type c12Tuple struct {
 	Start      uint64   `json:"start"`
 	Stop       uint64   `json:"stop"`
 	Final      int64    `json:"final"` // -1 unknown
+	CursorAt   int64    `json:"cursor_at"` // >= 0: the request carries the cursor of this FINAL block (and start_block_num = Start <= it)
 }
 
 func runC12(c *fw.Case) {
@@ -137,6 +138,13 @@ func runC12(c *fw.Case) {
 		} else {
 			t.Final = int64(r.Intn(61))
 		}
+		t.CursorAt = -1
+		if r.Intn(6) == 0 { // a reconnecting client: original start block + cursor of the last final block it saw
+			t.CursorAt = int64(t.Start + uint64(r.Intn(int(2*seg)+1)))
+			if t.Stop != 0 && t.Stop <= uint64(t.CursorAt)+1 {
+				t.Stop = uint64(t.CursorAt) + 2 + uint64(r.Intn(int(2*seg)))
+			}
+		}
 		if !c12Check(c, r, t, &e2eBudget) {
 			return
 		}
@@ -154,6 +162,13 @@ func c12Check(c *fw.Case, r *rand.Rand, t c12Tuple, e2eBudget *int) bool {
 	req := &pbsubstreamsrpc.Request{StartBlockNum: int64(t.Start), StopBlockNum: t.Stop, Modules: mods, OutputModule: "out", ProductionMode: t.Prod}
 	if req.StartBlockNum == 0 {
 		req.StartBlockNum = int64(bstream.GetProtocolFirstStreamableBlock)
+	}
+	wantStart := t.Start
+	if t.CursorAt >= 0 {
+		ref := bstream.NewBlockRef(fmt.Sprintf("b%d", t.CursorAt), uint64(t.CursorAt))
+		req.StartCursor = (&bstream.Cursor{Step: bstream.StepNewIrreversible, Block: ref, LIB: ref, HeadBlock: ref}).ToOpaque()
+		wantStart = uint64(t.CursorAt) + 1
+		c.Count("tuples_with_final_block_cursor", 1)
 	}
 	viol := func(sig, what string, extra map[string]any) bool {
 		w := map[string]any{"tuple": t}
@@ -192,7 +207,7 @@ func c12Check(c *fw.Case, r *rand.Rand, t c12Tuple, e2eBudget *int) bool {
 		return true
 	}
 	if undo != nil {
-		return viol("undo-without-cursor", "an undo signal was produced for a request without cursor", nil)
+		return viol("undo-without-fork", "an undo signal was produced for a request without cursor or with the cursor of a final block", nil)
 	}
 	S, H, E := details.ResolvedStartBlockNum, details.LinearHandoffBlockNum, details.StopBlockNum
 	if S == E && E != 0 {
@@ -226,8 +241,8 @@ func c12Check(c *fw.Case, r *rand.Rand, t c12Tuple, e2eBudget *int) bool {
 	}
 	c.Count("accepted", 1)
 	ex := map[string]any{"resolved_start": S, "handoff": H, "stop": E, "gate": details.LinearGateBlockNum, "plan": p.String()}
-	if S != t.Start && !(t.Start == 0 && S == bstream.GetProtocolFirstStreamableBlock) {
-		return viol("start-not-honoured", fmt.Sprintf("resolved start %d for requested start %d", S, t.Start), ex)
+	if S != wantStart && !(wantStart == 0 && S == bstream.GetProtocolFirstStreamableBlock) {
+		return viol("start-not-honoured", fmt.Sprintf("resolved start %d, expected %d (requested start %d, cursor on final block %d)", S, wantStart, t.Start, t.CursorAt), ex)
 	}
 	// linear range
 	wantLinear := E == 0 || H < E
@@ -329,7 +344,7 @@ func c12Check(c *fw.Case, r *rand.Rand, t c12Tuple, e2eBudget *int) bool {
 	c.Distinct("plan_shapes", fmt.Sprintf("%v/%v/%v/%v/%v", t.Prod, p.BuildStores != nil, p.WriteExecOut != nil, p.ReadExecOut != nil, p.LinearPipeline != nil))
 
 	// executability, observed on a sample
-	if *e2eBudget > 0 && E != 0 && E <= 40 && r.Intn(300) == 0 {
+	if *e2eBudget > 0 && t.CursorAt < 0 && E != 0 && E <= 40 && r.Intn(300) == 0 {
 		*e2eBudget--
 		dir, _ := os.MkdirTemp(os.Getenv("VH_SCRATCH"), "c12-")
 		defer os.RemoveAll(dir)
